@@ -46,6 +46,9 @@ def elem_classes(fam):
             return property(lambda self: self.data[i] if isinstance(self.data, (list, tuple)) and len(self.data) > i else None)
 
         ns = {"__eq__": __eq__, "__hash__": None, "__slots__": [], "p0": _p(0), "p1": _p(1), "p2": _p(2)}
+        if fam == "register":
+            # registers come with the library's own Register.__eq__ (class check + data): use IT, not a copy of it
+            del ns["__eq__"], ns["__hash__"]
         return type(name, bases, ns)
 
     K0 = mk(fam + "K0", (Base,))
